@@ -22,7 +22,7 @@ EXPLANATION = (
 TRUSTED = ['python ast', 'braxlint.avn polynomial normal form (ring axioms, sqrt(p)^2=p)',
            'semantics table of ~60 jax.numpy primitives (dot, cross, array, @, ...)']
 ASSUMPTIONS = ['jax.numpy primitives behave as their numpy counterparts on the shapes used',
-               'from_to and quat_to_euler (inverse trig / ideal membership) are not decided']
+               'quat_to_euler (inverse trig) is not decided; from_to is decided in homogeneous form (L14)']
 
 
 def laws(I):
@@ -172,7 +172,61 @@ def laws(I):
   yield 'L13', 'inv_3x3(m) (det+eps) m = det(m) I', 'brax.math.inv_3x3', inv3
 
 
+def from_to_laws(U, rep, tier):
+  """L14: from_to(v1, v2) rotates v1 onto v2 -- homogeneous form rotate(v1, q) = v2 (q.q), so the
+  final normalisation needs no square-root axiom.  Generic branch by random interpretation with unit
+  vectors by construction; antiparallel branch exactly (constants in Q(sqrt c), sqrt(c)^2 = c) for every
+  lattice direction of [-3, 3]^3: the fallback axis must not degenerate on any of them."""
+  import itertools
+  from math import gcd
+  from braxlint import refkin
+  f = U.func('brax.math.from_to')
+  bad = None
+  for seed in range(3):
+    avn.field_mode(seed, decide=lambda nm: 0 if nm.kind == 'bool' else None)   # 1 + v1.v2 >= 1e-6
+    try:
+      I = new_interp(U.repo, contracts=False)
+      v1, v2 = refkin.unit_vec('u'), refkin.unit_vec('w')
+      q = I.apply(fn(MA, 'from_to'), [v1, v2], {})
+      if not same(I.apply(fn(MA, 'rotate'), [v1, q], {}), v2 * np.dot(q, q)):
+        bad = seed
+    finally:
+      avn.exact_mode()
+  rep.check(bad is None, 'L14', 'from_to(v1, v2) rotates v1 onto v2 (generic branch)',
+            'rotate(v1, from_to(v1, v2)) != v2 for generic unit vectors (random-interpretation trial %s)' % bad, where=f.where(),
+            construct='rotate(v1, q) == v2 (q.q) for unit v1, v2 by construction')
+  dirs = set()
+  for d in itertools.product(range(-3, 4), repeat=3):
+    if d == (0, 0, 0):
+      continue
+    g = gcd(gcd(abs(d[0]), abs(d[1])), abs(d[2]))
+    dirs.add(tuple(x // g for x in d))
+  if tier == 'quick':
+    dirs = {d for d in dirs if max(abs(x) for x in d) <= 2}
+  I = new_interp(U.repo, contracts=False)
+  badd = None
+  for d in sorted(dirs):
+    n2 = sum(x * x for x in d)
+    r = Rat.lift(1) if n2 == 1 else uf('sqrt', Rat.lift(n2))
+    v1 = np.array([Rat.lift(x) / r for x in d], dtype=object)
+    try:
+      q = I.apply(fn(MA, 'from_to'), [v1, -v1], {})
+      ok = same(I.apply(fn(MA, 'rotate'), [v1, q], {}), -v1 * np.dot(q, q)) and not all(Rat.lift(x).is_zero() for x in q)
+    except avn.OutOfFragment as e:
+      if 'zero' not in str(e):
+        raise
+      ok = False
+    if not ok:
+      badd = d
+      break
+  rep.check(badd is None, 'L14', 'from_to(v, -v): the fallback axis is non-degenerate for every lattice direction',
+            'from_to(v, -v) degenerates for v parallel to %r: the fallback reference vector is parallel to a lattice direction, '
+            'its projection orthogonal to v vanishes and round-off noise is normalised into an arbitrary rotation' % (badd,),
+            where=f.where(), construct='%d primitive directions of [-3,3]^3, exact arithmetic in Q(sqrt c)' % len(dirs))
+
+
 def run(U, rep, tier):
+  from_to_laws(U, rep, tier)
   I = new_interp(U.repo, contracts=False)
   # L13 needs linalg.det opaque
   avn.JNP['linalg']['det'] = lambda x: I.contracts[('jnp', 'det')](x)
